@@ -798,6 +798,32 @@ def gen_case(rng, allow_defects=True, depth=None):
     return {"suite": "lts", "beh": beh, "steps": steps, "ka": KA, "linger": rng.choice([LINGER, LINGER, LINGER, 0, 3])}
 
 
+def gen_badbody_case(rng):
+    """A request whose chunked body turns out to be malformed in a LATER read than its head: the handler may ignore the
+    body (lingering read meets the parser's exception), read it (the handler gets the exception) or be blocked."""
+    n = rng.randint(1, 4)
+    beh = {}
+    parts = []
+    for i in range(n - 1):
+        parts.append(b"".join(enc_request(i, {"ver": "1.1"})))
+        if rng.random() < 0.3:
+            beh[str(i)] = rand_beh(rng, False, False)
+    last = n - 1
+    head = ("POST /r/%d HTTP/1.1\r\nHost: x\r\nTransfer-Encoding: chunked\r\n\r\n" % last).encode()
+    good = b"3\r\nabc\r\n" if rng.random() < 0.6 else b""
+    bad = rng.choice([b"zz\r\n", b"-1\r\n", b"3\r\nabcd\r\n", b"1" + b"0" * 40 + b";" + b"e" * 9000 + b"\r\n", b"0\r\nBad Trailer\r\n\r\n"])
+    beh[str(last)] = {"kind": rng.choice(["ok", "ok", "read", "fclose", "http", "stream", "exc"])}
+    if rng.random() < 0.4:
+        beh[str(last)]["block"] = True
+    steps = [["data", (b"".join(parts) + head + good).hex()]]
+    for _ in range(rng.choice([0, 1, 1, 2])):
+        steps.append(["rel"] if rng.random() < 0.7 else ["tick", rng.choice([1, 9, 10])])
+    steps.append(["data", bad.hex()])
+    for _ in range(rng.choice([0, 1, 2])):
+        steps.append(["rel"] if rng.random() < 0.6 else ["tick", rng.choice([1, 10, 11])])
+    return {"suite": "lts", "beh": beh, "steps": steps, "ka": KA, "linger": rng.choice([LINGER, LINGER, 0])}
+
+
 def depth_sweep_cases():
     """Fixed histories: a blocked first handler and a pipeline of every depth around the cap and the resume mark,
     in one read and in two reads split at every request boundary near the marks."""
@@ -849,8 +875,8 @@ def suite_lts(ctx, exe):
     sweep = depth_sweep_cases()
     cases += [c for c in sweep if c["suite"] == "lts"]
     n = 900 if ctx.quick else 20000
-    for _ in range(n):
-        cases.append(gen_case(rng, allow_defects=rng.random() < 0.12))
+    for k in range(n):
+        cases.append(gen_badbody_case(rng) if k % 12 == 5 else gen_case(rng, allow_defects=rng.random() < 0.12))
     results = []
     for c in cases:
         r = run_impl(c)
@@ -868,11 +894,13 @@ def suite_lts(ctx, exe):
         if any("pc=linger" in s for s in r["snaps"]):
             ctx.count("lts:lingering")
         report(ctx, c, r)
-    compare(ctx, exe, cases, results, "lts")
+    if exe is not None:
+        compare(ctx, exe, cases, results, "lts")
     if results:
         ctx.sample({"suite": "lts", "case": cases[-1], "events": " ".join(results[-1]["events"])[:400], "last_snapshot": results[-1]["snaps"][-1] if results[-1]["snaps"] else None})
     ctx.count("lts:corpus", ncorpus)
-    ctx.close_suite("lts", len(cases))
+    if exe is not None:
+        ctx.close_suite("lts", len(cases))
     # after-error data: the model's parser keeps going like the real one only as long as both saw the same call
     # boundaries; these fixed histories keep them aligned (one element per read)
     pe = [c for c in sweep if c["suite"] == "lts-posterr"]
@@ -952,11 +980,12 @@ def run(ctx):
         ok, exe = build_model()
         ctx.oblige("model-runner-build", "correspondence", ok, "" if ok else exe)
         if not ok:
-            return
-        consts = fw.run_model(exe, ["CONSTS"])[0]
-        from aiohttp import web_protocol
-        want = "max=%d resume=%d" % (web_protocol.MAX_MSG_QUEUE_SIZE, web_protocol.MAX_MSG_QUEUE_SIZE // 2)
-        ctx.oblige("correspondence:constants", "correspondence", consts == want, f"model {consts} / implementation {want}")
+            exe = None          # no model: the property oracle still searches the implementation for a failing input
+        else:
+            consts = fw.run_model(exe, ["CONSTS"])[0]
+            from aiohttp import web_protocol
+            want = "max=%d resume=%d" % (web_protocol.MAX_MSG_QUEUE_SIZE, web_protocol.MAX_MSG_QUEUE_SIZE // 2)
+            ctx.oblige("correspondence:constants", "correspondence", consts == want, f"model {consts} / implementation {want}")
         suite_lts(ctx, exe)
         suite_hostile(ctx)
     finally:
